@@ -162,3 +162,206 @@ fn streaming_step(blen_max: usize, cap: usize, reads: usize) {
     }
     std::mem::forget(s);
 }
+
+// ===========================================================================
+// Scenario runs.  The one-poll step above does not get through the solver with
+// symbolic lengths; with every LENGTH concrete (read sizes, Pending points,
+// chunk size) CBMC follows the control flow concretely and whole multi-poll
+// runs finish in seconds -- while every BYTE of the source stays symbolic, so
+// "item i is exactly the source bytes at its offset" is decided for all
+// contents.  Each scenario is a read script for the real FixedSizeChunker
+// (the wrapper is generic in the chunker; the rolling-hash chunkers' own
+// refill behaviour is the subject of proofs/rh_chunker.rs).
+// ===========================================================================
+/// reader over a symbolic source: script entry 1..=8 = short read of that many bytes, 0 = EOF, 9 = Pending, 15 = error
+struct ScriptReader<const L: usize> {
+    src: [u8; L],
+    len: usize,
+    pos: usize,
+    script: [u8; 10],
+    k: usize,
+}
+impl<const L: usize> AsyncRead for ScriptReader<L> {
+    fn poll_read(mut self: Pin<&mut Self>, _cx: &mut Context<'_>, buf: &mut ReadBuf<'_>) -> Poll<io::Result<()>> {
+        let me = &mut *self;
+        let a = if me.k < 10 { me.script[me.k] } else { 0 };
+        me.k += 1;
+        match a {
+            9 => Poll::Pending,
+            15 => Poll::Ready(Err(io::ErrorKind::Other.into())),
+            n => {
+                let mut n = n as usize;
+                if n > me.len - me.pos {
+                    n = me.len - me.pos;
+                }
+                assert!(n <= buf.remaining());
+                buf.put_slice(&me.src[me.pos..me.pos + n]);
+                me.pos += n;
+                Poll::Ready(Ok(()))
+            }
+        }
+    }
+}
+/// run the stream to its end; returns (number of items, offsets, lengths), asserting every item's bytes
+fn run_scenario<const L: usize>(len: usize, chunk: usize, script: [u8; 10], max_polls: usize) {
+    let src: [u8; L] = kani::any();
+    let reader = ScriptReader::<L> { src, len, pos: 0, script, k: 0 };
+    let mut s = StreamingChunker::new(crate::chunker::FixedSizeChunker::new(chunk), reader);
+    let mut cx = noop_cx();
+    let mut next_off: u64 = 0;
+    let mut items = 0;
+    let mut ended = false;
+    let mut pendings = 0;
+    let mut p = 0;
+    while p < max_polls && !ended {
+        p += 1;
+        match Pin::new(&mut s).poll_next(&mut cx) {
+            Poll::Ready(Some(Ok((off, c)))) => {
+                // contiguous from 0, exactly the source bytes at that offset
+                assert!(off == next_off);
+                let n = c.len();
+                assert!(n >= 1 && off as usize + n <= len);
+                let mut j = 0;
+                while j < L {
+                    if j < n {
+                        assert!(c.data()[j] == src[off as usize + j]);
+                    }
+                    j += 1;
+                }
+                // every chunk but the last has exactly the fixed size
+                assert!(n == chunk || off as usize + n == len);
+                next_off += n as u64;
+                items += 1;
+                std::mem::forget(c);
+            }
+            Poll::Ready(Some(Err(e))) => {
+                assert!(false, "no error in this script");
+                std::mem::forget(e);
+            }
+            Poll::Ready(None) => ended = true,
+            Poll::Pending => pendings += 1,
+        }
+    }
+    // the chunks tile the whole source, then the stream ends
+    assert!(ended);
+    assert!(next_off as usize == len);
+    assert!(items == (len + chunk - 1) / chunk);
+    kani::cover!(pendings > 0 || script[1] != 9);
+    std::mem::forget(s);
+}
+macro_rules! scenario {
+    ($name:ident, $l:expr, $len:expr, $chunk:expr, $script:expr, $polls:expr) => {
+        #[kani::proof]
+        #[kani::unwind(12)]
+        fn $name() {
+            run_scenario::<$l>($len, $chunk, $script, $polls);
+        }
+    };
+}
+// 7 bytes, chunk 3: reads 2, Pending, 3, 2, EOF
+scenario!(c09_stream_run_a, 7, 7, 3, [2, 9, 3, 2, 0, 0, 0, 0, 0, 0], 9);
+// 6 bytes, chunk 3 (length a multiple of the chunk size: no tail): reads 3, 3, EOF
+scenario!(c09_stream_run_b, 6, 6, 3, [3, 3, 0, 0, 0, 0, 0, 0, 0, 0], 8);
+// 5 bytes, chunk 2, one byte per read with a Pending before every read
+scenario!(c09_stream_run_c, 5, 5, 2, [9, 1, 9, 1, 9, 1, 9, 1, 9, 1], 10);
+// 4 bytes, chunk 3: everything in one read, Pending before EOF
+scenario!(c09_stream_run_d, 4, 4, 3, [4, 9, 0, 0, 0, 0, 0, 0, 0, 0], 8);
+// empty source
+scenario!(c09_stream_run_e, 1, 0, 3, [0, 0, 0, 0, 0, 0, 0, 0, 0, 0], 3);
+// 8 bytes = REFILL_SIZE (mirror), chunk 5: a read that fills the buffer exactly, tail after a Pending
+scenario!(c09_stream_run_f, 8, 8, 5, [8, 9, 0, 0, 0, 0, 0, 0, 0, 0], 8);
+// 9 bytes > REFILL_SIZE, chunk 4: reads 5, 4
+scenario!(c09_stream_run_g, 9, 9, 4, [5, 4, 0, 0, 0, 0, 0, 0, 0, 0], 9);
+
+// ---------------------------------------------------------------------------
+// Scenario runs with a content-defined chunker that is a pure function of the
+// buffer: cut right after the first byte with the top bit set (min 1, no max).
+// Where the chunks fall now depends on the symbolic bytes, so one run covers
+// every placement of boundaries relative to the read script -- e.g. a refill
+// that leaves the buffer as long as it was at the last unsuccessful scan.
+// The expected chunk sequence is the same rule applied to the whole source.
+// ---------------------------------------------------------------------------
+/// Chunk boundaries at given absolute stream positions (bit j of `pattern` = a chunk ends after byte j): stands
+/// for any content-defined chunker on any content that puts its boundaries there.  The decision is a function of
+/// (stream position of the buffer start, buffer length) only -- not of how often `next` is called -- and its
+/// control flow is concrete.
+struct MarkerChunker {
+    consumed: usize,
+    pattern: u32,
+}
+impl Chunker for MarkerChunker {
+    fn next(&mut self, buf: &mut BytesMut) -> Option<Chunk> {
+        let mut i = 0;
+        while i < buf.len() {
+            if self.pattern & (1 << (self.consumed + i)) != 0 {
+                self.consumed += i + 1;
+                return Some(Chunk(buf.split_to(i + 1).freeze()));
+            }
+            i += 1;
+        }
+        None
+    }
+}
+/// `pattern`: bit j set = a chunk ends after source byte j (concrete); every source byte is symbolic.
+fn run_marker_scenario<const L: usize>(pattern: u32, script: [u8; 10], max_polls: usize) {
+    let src: [u8; L] = kani::any();
+    // expected chunk ends by the rule on the whole source
+    let mut expect_end = [0usize; L];
+    let mut n_expect = 0;
+    let mut j = 0;
+    while j < L {
+        if pattern & (1 << j) != 0 || j + 1 == L {
+            expect_end[n_expect] = j + 1;
+            n_expect += 1;
+        }
+        j += 1;
+    }
+    let reader = ScriptReader::<L> { src, len: L, pos: 0, script, k: 0 };
+    let mut s = StreamingChunker::new(MarkerChunker { consumed: 0, pattern }, reader);
+    let mut cx = noop_cx();
+    let mut next_off: usize = 0;
+    let mut items = 0;
+    let mut ended = false;
+    let mut p = 0;
+    while p < max_polls && !ended {
+        p += 1;
+        match Pin::new(&mut s).poll_next(&mut cx) {
+            Poll::Ready(Some(Ok((off, c)))) => {
+                assert!(off as usize == next_off);
+                assert!(items < n_expect, "more chunks than the rule gives");
+                assert!(off as usize + c.len() == expect_end[items], "chunk end differs from the rule applied to the whole stream: chunking depends on how reads were fragmented");
+                let mut j = 0;
+                while j < L {
+                    if j < c.len() {
+                        assert!(c.data()[j] == src[next_off + j]);
+                    }
+                    j += 1;
+                }
+                next_off += c.len();
+                items += 1;
+                std::mem::forget(c);
+            }
+            Poll::Ready(Some(Err(e))) => {
+                assert!(false, "no error in this script");
+                std::mem::forget(e);
+            }
+            Poll::Ready(None) => ended = true,
+            Poll::Pending => {}
+        }
+    }
+    assert!(ended && next_off == L && items == n_expect);
+    kani::cover!(true);
+    std::mem::forget(s);
+}
+macro_rules! marker_scenarios {
+    ($( ($name:ident, $pattern:expr, $script:expr) ),* $(,)?) => {
+        $(
+            #[kani::proof]
+            #[kani::unwind(12)]
+            fn $name() {
+                run_marker_scenario::<5>($pattern, $script, 10);
+            }
+        )*
+    };
+}
+include!("streaming_marker_grid.rs");
